@@ -178,7 +178,15 @@ def generate(ctx):
                 cases.append(case(1, copy.deepcopy(doc), ops, ['pointer-length', 'len=%d' % L]))
     return cases
 
-def project(c, out): return strip_suffix(out)
+def project(c, out):
+    # the property fixes: status zero / non-zero, and on success the resulting document (as a value); WHICH non-zero code is returned and
+    # what a failed application leaves behind (beyond a well-formed tree, which the verdict checks) are not fixed
+    o = strip_suffix(out)
+    if is_crash(o): return 'CRASH'
+    tok = o.split()
+    if not tok or not tok[0].lstrip('-').isdigit(): return o
+    if tok[0] != '0': return 'FAILED'
+    return o
 
 def verdict(c, out, ctx):
     if is_crash(out): return 'crash / memory error: ' + out
